@@ -55,7 +55,7 @@ ElemGood(ev, N, ES, x) ==
 \* beyond their documented range (sleef.rs: `todo!()` for |x| >= 393216)
 StubOk(ev, N, ES, x) ==
   /\ ev.o = "panic" /\ ev.msg = "not yet implemented"
-  /\ ev.t = "p32" /\ ev.op \in {"sin", "cos", "tan"}
+  /\ ev.t = "p32" /\ ev.op \in {"sin", "cos", "tan", "sin_cos"}
   /\ ~IsNaR(N, x[1]) /\ ~TrigDomain(Val(N, ES, x[1]))
 \* for the diagnosis of a panic: was the argument inside the function's documented domain?
 DomTag(ev, N, ES, x) ==
